@@ -428,6 +428,9 @@ func trav(r *Run, focus string) {
 			b = append(b, types.AddrMaybeId{Addr: n.addr.ToNodeAddrPort(), Id: generics.Some(int160.FromByteArray(n.listID))})
 			r.Probe("late-add-fresh-close-node")
 			tw.allHonest = false
+			if ch.Chance(1, 2, "late.fresh.only") {
+				return b
+			}
 		}
 		if N == 0 {
 			if ch.Chance(1, 2, label+".bogus") {
@@ -461,9 +464,21 @@ func trav(r *Run, focus string) {
 			tw.offered[a.Addr.String()] = append(tw.offered[a.Addr.String()], a)
 		}
 		tw.mu.Unlock()
-		r.Logf("%s n=%d", name, len(batch))
+		single := len(batch) == 1 && name != "seed" && r.Rng.Intn(2) == 0
+		r.Logf("%s n=%d single=%v", name, len(batch), single)
+		if single {
+			r.Probe("addnode-single")
+		}
 		r.Go(name, func() any {
-			n := op.AddNodes(batch)
+			n := 0
+			if single {
+				// the one-contact form of the API
+				if op.AddNode(batch[0]) == nil {
+					n = 1
+				}
+			} else {
+				n = op.AddNodes(batch)
+			}
 			tw.mu.Lock()
 			for _, a := range batch {
 				tw.learn(a)
